@@ -863,6 +863,12 @@ fn exec_findings(cfg: &Cfg, exec: &crate::driver::ExecReport, audit: &crate::dri
     for s in &audit.structural {
         let disc = s.split(':').next().unwrap_or("").to_string();
         out.push(Finding::new("C03", "list_and_index_well_formed", format!("{}/{}", kind, disc), format!("{} ({})", s, phase)));
+        // the iterators walk `next` from the head and `prev` from the tail for len() steps: if the two chains are
+        // not mirror images of each other, or do not hold len() nodes, the *_lru iterators are not the reverses of
+        // the others (C14) - reported without running them over a mis-linked list
+        if matches!(cfg.kind, Kind::Raw | Kind::TwoQ | Kind::Arc) && (s.contains("mirror") || s.contains("prev does not point") || s.contains("tail.prev") || s.contains("nodes but the index") || s.contains("did not reach")) {
+            out.push(Finding::new("C14", "iterators_need_a_well_formed_list", format!("{}/{}", kind, disc), format!("{} ({}) — back-to-front and front-to-back iteration cannot both be right", s, phase)));
+        }
     }
     for e in &exec.alloc_errors {
         let disc = if e.contains("double free") { "double_free" } else { "bad_free" };
@@ -929,6 +935,9 @@ pub fn check_trans(cfg: &Cfg, pre: &Snap, probe: &Probe, op: Op, t: &TransRes, e
         None => return out,
     };
     bump(c, &format!("ret.{}", ret_class(ret)));
+    for p in &t.iter_problems {
+        out.push(Finding::new("C14", "iterator_words_after_transition", p.split(':').next().unwrap_or("").to_string(), format!("{} — in the object reached by {}", p, ctx(Some(post)))));
+    }
 
     // ---- C02 (b): frame rule and return values of lookups/removes
     {
